@@ -774,6 +774,8 @@ def opPtr (f : Fam) (full : Bool) (x : Text) (out : String) : String × String :
           "the stand-alone accessors do not return the in-order, non-overlapping sub-slices of the input given by RFC 3986",
         check (subLoc (g "userinfo") (ap.bind (·.userinfo)) && subLoc (g "host") (ap.map (·.host)) &&
           subLoc (g "port") (ap.bind (·.port))) "authority sub-components are not sub-slices of the authority",
+        check (g "auserinfo" == g "userinfo" && g "ahost" == g "host" && g "aport" == g "port")
+          "the stand-alone authority accessors do not return the same sub-slices as parts()",
         check (segLoc (g "first") sg.head? && segLoc (g "last") sg.getLast? && segLoc (g "fn") (Oracle.fileName p.path))
           "first/last/file name are not sub-slices of the path",
         check (inPathPrefix (g "dir") [[]] (upToLastSlash p.path)) "directory is not a prefix of the path (or the empty constant)",
